@@ -9,7 +9,8 @@ THEOREMS = ['MindsVerif.Props.C17.' + n for n in (
     'C17_wrapper', 'C17_never_raises_iff', 'C17_without_fallback', 'C17_own_tables', 'C17_partial',
     'C17_cast_ok', 'C17_param_ok', 'C17_unop_iff', 'C17_table_position', 'C17_create_table_ok', 'C17_insert_dup_iff',
     'C17_no_mutation', 'C17_fixed_constructs', 'C17_fixed_cast_fallback', 'C17_fixed_serial', 'C17_fixed_join_type',
-    'C17_witness_tuple_operand', 'C17_witness_insert_dup', 'C17_witness_pg_backtick', 'C17_full_false', 'pins', 'core_types')]
+    'C17_witness_tuple_operand', 'C17_witness_insert_dup', 'C17_witness_pg_backtick', 'C17_pg_scanner_identity',
+    'C17_repaired_clean', 'C17_repaired_own_tables', 'C17_partial_repaired', 'C17_repaired_witnesses', 'C17_full_false', 'pins', 'core_types')]
 ASSUME = [
     'the theorems are about the hand models Model/Fallback.lean (wrapper, own-table exception classes, prepare_create_table column loop); '
     'tie = this run: wrapper correspondence (fallback-on result predicted from the fallback-off behaviour and str(ast)), own-site '
@@ -29,6 +30,12 @@ UNMODELLED_OWN = [
     ('TypeError', 'to_expression', r'takes no arguments|positional argument|unexpected keyword|missing \d+ required'),
     ('TypeError', 'to_function', r''),
     ('TypeError', 'prepare_create_table', r'takes no arguments|positional argument|unexpected keyword'),
+    # guards that translate a SQLAlchemy signature / naming failure into NotImplementedError (fixes/C17_2, 4, 6):
+    # they belong to "SQLAlchemy's part" of the model (`saQuiet`), wherever they are raised
+    ('NotImplementedError', r'op|to_function', r'^Function '),
+    ('NotImplementedError', r'to_expression|prepare_create_table', r'^Type '),
+    ('NotImplementedError', r'get_table_name', r'^Table name: '),
+    ('NotImplementedError', r'to_column', r'^Empty identifier part'),
 ]
 
 _render = {}
@@ -107,7 +114,7 @@ class Ser:
                 mode, self.al(t), self.grp(t.targets), ' '.join(ctes), self.opt(t.from_table), self.opt(t.where),
                 self.grp(t.group_by or []), self.opt(t.having), self.grp(order))
         elif isinstance(t, (ast.Union, ast.Except, ast.Intersect)):
-            r = '( union %s %s %s )' % (self.al(t), self.node(t.left), self.node(t.right))
+            r = '( union %d %s %s %s )' % (isinstance(t, ast.Union), self.al(t), self.node(t.left), self.node(t.right))
         elif isinstance(t, ast.Function):
             kids = [t.from_arg] if t.from_arg is not None else t.args
             r = '( func %d %d %s %s )' % (bool(t.distinct), t.from_arg is not None, self.al(t),
@@ -229,6 +236,29 @@ def snap_diff(a, b, path=''):
                 out += snap_diff(x, y, path + '[N]')
         return out or [path]
     return [path]
+
+
+def strip_outside_literals(sql):
+    """str(ast) without back-tick identifier quotes; back-ticks inside '...' literals are kept (reference for postgresql)"""
+    out, in_string, in_ident, i = [], False, False, 0
+    while i < len(sql):
+        ch = sql[i]
+        if in_string:
+            out.append(ch)
+            if ch == '\\' and i + 1 < len(sql):
+                i += 1
+                out.append(sql[i])
+            elif ch == "'":
+                in_string = False
+        elif ch == '`':
+            in_ident = not in_ident
+        elif ch == "'" and not in_ident:
+            in_string = True
+            out.append(ch)
+        else:
+            out.append(ch)
+        i += 1
+    return ''.join(out)
 
 
 def backtick_constant(x, depth=0):
@@ -370,10 +400,10 @@ def probe_tree(d, text, a, S=None):
                                  dialect_name=renderer(rd).dialect.name, got=v1[:300], expected=v0[:300],
                                  desc='with fallback the result differs from the rendering obtained without fallback',
                                  **{'class': 'fallback-text/differs-from-rendering'}))
-        elif kind0 == 'raise' and ptext[0] == 'ret' and v1 != ptext[1] and not (
-                renderer(rd).dialect.name == 'postgresql' and v1 == ptext[1].replace('`', '') and not backtick_constant(a)):
-            # reading (notes/C17.md): for postgresql the code documents "str(ast) without back-tick identifier quoting";
-            # a back-tick removed from inside a string CONSTANT changes the data the text denotes and is reported
+        elif kind0 == 'raise' and ptext[0] == 'ret' and v1 != (
+                strip_outside_literals(ptext[1]) if renderer(rd).dialect.name == 'postgresql' else ptext[1]):
+            # reading (notes/C17.md): for postgresql "the tree's own SQL string" is str(ast) without back-tick IDENTIFIER
+            # quoting; a back-tick removed from inside a '...' literal changes the data the text denotes and is reported
             how = 'other'
             if v1 == ptext[1].replace('`', ''):
                 how = 'backtick-removed-from-string-constant' if renderer(rd).dialect.name == 'postgresql' else 'backticks-stripped'
@@ -433,6 +463,7 @@ SHAPES = [
     'create table t (a serial, b int)', 'create table t (a SERIAL)', 'create table t (a foo)', 'create table t (a int, b serial, c foo, d serial)',
     'create table t select * from s', 'create table a.b.c (x int)', 'drop table a', 'drop table a, b', 'drop table a.b.c',
     'select * from t union select * from s', 'select * from (select 1 union select 2) as u',
+    'select * from (select 1 except select 2) as u', 'select * from (select 1 intersect select 2)', 'select * from t join (select 1 except select 2) as u',
     'select case when a then cast(b as foo) else 1 end from t', 'select a between 1 and cast(b as foo) from t',
     'select exists (select cast(a as foo))', 'select row_number() over (partition by a order by b desc) from t',
     'select interval 1 day', 'select @a, @@b', 'select current_date, CURRENT_USER from t', 'select a in current_date from t',
@@ -470,7 +501,7 @@ INTERVAL_CTX = ['select %s', 'select %s as x from t', 'select a + %s from t', 's
                 'select * from t where exists (select 1 from s where s.a < %s)', 'select cast(%s as varchar) from t',
                 'insert into t (a) values (%s)', 'update t set a = a + %s where b < %s', 'delete from t where a < now() - %s',
                 'select %s union select %s']
-TYPE_ARGS = ['', '(11)', '(0)', '(255)', '(10, 2)', '(3, 0)']
+TYPE_ARGS = ['', '(11)', '(0)', '(10, 2)']
 
 
 def type_shapes(d):
@@ -490,9 +521,9 @@ def type_shapes(d):
     return out
 
 
-def interval_shapes():
+def interval_shapes(d='mindsdb'):
     out = []
-    for i, c in enumerate(INTERVAL_CTX):
+    for i, c in enumerate(INTERVAL_CTX if d == 'mindsdb' else INTERVAL_CTX[::2]):
         for j, iv in enumerate(INTERVALS):
             k = c.count('%s')
             out.append(c % tuple(INTERVALS[(j + m * 5) % len(INTERVALS)] if m else iv for m in range(k)))
@@ -500,48 +531,90 @@ def interval_shapes():
 
 
 _cov = {}
+_cov_ok = {}
 
 
 def grammar_shapes(d, rng, n):
-    """coverage-guided derivations of `expr` (every production whose lhs is `expr` is forced once per run, then the
-    least-used-first walk of tools/harness/gen.Grammar) in six contexts, and of `table_column_list` inside CREATE TABLE"""
+    """production-forcing derivations (tools/harness/gen.Grammar): EVERY production reachable from `expr` is forced once —
+    the production is expanded, then wrapped upwards along a shortest chain of productions to `expr`, siblings derived
+    minimally — and put into one of six contexts; `table_column` productions inside CREATE TABLE; then `n` least-used-first
+    derivations of `expr`.  Each case carries the productions it used, so coverage can be counted over the sentences
+    that actually parsed."""
     from tools.harness import gen
     G = gen.Grammar(d)
     ctxs = ['select %s', 'select %s from t', 'select * from t where %s', 'select * from t1 join t2 on %s',
             'select * from (select %s from s) as q', 'select a from t group by a having %s']
+    parent, queue = {'expr': None}, ['expr']
+    while queue:
+        y = queue.pop(0)
+        for j in G.by_lhs.get(y, []):
+            for x in G.prods[j]['rhs']:
+                if x not in G.termset and x not in parent:
+                    parent[x] = j
+                    queue.append(x)
+    reach = [i for i, p in enumerate(G.prods) if p['lhs'] in parent]
 
-    def text_of(types):
-        return gen.render(d, types, rng)
+    def expand(j, hole=None, hole_types=None):
+        out, used = [], False
+        G.used[j] += 1
+        for y in G.prods[j]['rhs']:
+            if y in G.termset:
+                out.append(y)
+            elif y == hole and not used:
+                out += hole_types
+                used = True
+            else:
+                out += G.derive(rng, depth=rng.randint(1, 3), sym=y)
+        return out
+
+    def forced(i):
+        types, x = expand(i), G.prods[i]['lhs']
+        while parent.get(x) is not None:
+            j = parent[x]
+            types, x = expand(j, x, types), G.prods[j]['lhs']
+        return types
+
+    def emit(types, wrap, before):
+        t = gen.render(d, types, rng)
+        if t is None:
+            return None
+        prods = [i for i, u in enumerate(G.used) if u != before[i]]
+        return dict(src='exprgen', text=wrap(t), prods=prods, cov=d)
     out = []
-    for lhs in ('expr', 'table_column'):
-        for i in G.by_lhs.get(lhs, []):
-            for rep in range(2):
-                types = []
-                G.used[i] += 1
-                for y in G.prods[i]['rhs']:
-                    types += [y] if y in G.termset else G.derive(rng, depth=rng.randint(2, 5), sym=y)
-                t = text_of(types)
-                if t is None:
-                    continue
-                out.append((rng.choice(ctxs) % t) if lhs == 'expr' else 'create table t ( %s )' % t)
+    for i in reach:
+        for attempt in range(4):      # siblings are random: retry until the real parser accepts the sentence
+            before = list(G.used)
+            c = rng.choice(ctxs)
+            r = emit(forced(i), lambda t: c % t, before)
+            if r and (attempt == 3 or parse(d, r['text']) is not None):
+                out.append(r)
+                break
+    for i in G.by_lhs.get('table_column', []) + G.by_lhs.get('table_column_list', []):
+        for rep in range(3):
+            before = list(G.used)
+            types = []
+            G.used[i] += 1
+            for y in G.prods[i]['rhs']:
+                types += [y] if y in G.termset else G.derive(rng, depth=rng.randint(2, 5), sym=y)
+            r = emit(types, lambda t: 'create table t ( %s )' % t, before)
+            if r:
+                out.append(r)
     for k in range(n):
-        t = text_of(G.derive(rng, depth=rng.randint(2, 7), sym='expr'))
-        if t is not None:
-            out.append(ctxs[k % len(ctxs)] % t)
-    if 'table_column_list' in G.by_lhs:
-        for k in range(max(10, n // 10)):
-            t = text_of(G.derive(rng, depth=rng.randint(2, 6), sym='table_column_list'))
-            if t is not None:
-                out.append('create table %s ( %s )' % (rng.choice(['t', 'a.b', 'if not exists t']), t))
-    reach, todo = set(), ['expr']
-    while todo:
-        x = todo.pop()
-        for i in G.by_lhs.get(x, []):
-            if i not in reach:
-                reach.add(i)
-                todo += [y for y in G.prods[i]['rhs'] if y not in G.termset]
-    _cov[d] = dict(expr_reachable_productions=len(reach), exercised=sum(1 for i in reach if G.used[i]))
+        before = list(G.used)
+        r = emit(G.derive(rng, depth=rng.randint(2, 7), sym='expr'), lambda t: ctxs[k % len(ctxs)] % t, before)
+        if r:
+            out.append(r)
+    _cov[d] = dict(expr_reachable_productions=len(reach), forced=len(reach), used_in_derivations=sum(1 for i in reach if G.used[i]))
+    _cov_ok[d] = (set(reach), set())
     return out
+
+
+def note_parsed(case):
+    """coverage bookkeeping: the productions of a generated sentence count once the real parser accepted it"""
+    if case.get('cov') in _cov_ok:
+        reach, ok = _cov_ok[case['cov']]
+        ok.update(i for i in case['prods'] if i in reach)
+        _cov[case['cov']]['exercised_by_parsed_sentences'] = len(ok)
 
 
 def case_stream(d, rng, n_mut, n_sent, n_func):
@@ -549,10 +622,9 @@ def case_stream(d, rng, n_mut, n_sent, n_func):
         yield dict(src='shape', text=s)
     for s in type_shapes(d):
         yield dict(src='types', text=s)
-    for s in interval_shapes():
+    for s in interval_shapes(d):
         yield dict(src='interval', text=s)
-    for s in grammar_shapes(d, rng, max(150, n_sent // 3)):
-        yield dict(src='exprgen', text=s)
+    yield from grammar_shapes(d, rng, max(100, n_sent // 5))
     for s in func_shapes(rng, n_func):
         yield dict(src='func', text=s)
     yield from streams.statement_stream(d, rng, n_mut, n_sent)
@@ -562,7 +634,7 @@ def case_stream(d, rng, n_mut, n_sent, n_func):
 def model_sites_ok(site, msg):
     """own-site raises the model does not claim to decide"""
     for exc, func, rx in UNMODELLED_OWN:
-        if site['exc'] == exc and site['func'] == func and re.search(rx, msg):
+        if site['exc'] == exc and re.fullmatch(func, site['func']) and re.search(rx, msg):
             return True
     return False
 
@@ -571,7 +643,7 @@ def run(chk):
     warnings.simplefilter('ignore')
     quick = chk.tier == 'quick'
     deep = (not quick) or bool(chk.broken())
-    n_mut, n_sent, n_func = (600, 1000, 120) if not deep else (6000, 9000, 600)
+    n_mut, n_sent, n_func = (400, 700, 100) if not deep else (6000, 9000, 600)
     if quick and deep:
         n_mut, n_sent, n_func = 1500, 2500, 200
 
@@ -597,6 +669,7 @@ def run(chk):
             a = parse(d, text)
             if a is None:
                 continue
+            note_parsed(case)
             S = Ser()
             try:
                 line = S.node(a)
@@ -654,9 +727,12 @@ def run(chk):
 
     # (1) own-table exception classes, both directions
     div, first, rd_dist = 0, None, {}
+    unshaped = []
     for (d, text, kind0, v0, opaque, tags), o in zip(meta_r, out_r):
-        m = re.match(r'raise=(\w+) clean=(\d)', o)
+        m = re.match(r'raise=(\w+) clean=(\d) shaped=(\d)', o)
         why = None
+        if m and m.group(3) != '1':
+            unshaped.append(dict(dialect=d, text=text, tags=tags))
         if not m:
             why = 'driver: ' + o
         else:
@@ -689,6 +765,9 @@ def run(chk):
             if first is None:
                 first = dict(dialect=d, text=text, why=why, model=o, tags=tags)
     chk.corr_result('own-table-exceptions', len(lines_r), div, first, rd_dist)
+    # assumption of C17_partial_repaired: every parser-produced tree satisfies the shape invariant `shaped`
+    chk.oblige('assume:parser-output-shaped', 'assumption', not unshaped,
+               '' if not unshaped else 'first tree violating `shaped`: %s' % json.dumps(unshaped[0])[:600])
 
     # (2) wrapper
     div, first, w_dist = 0, None, {}
